@@ -360,6 +360,10 @@ func c07Check(c *ev.Collector, k c07Case) {
 				_, _, ok, judged = refParseGRPC(k.Timeout)
 			}
 			toOK, toJudged = ok, judged
+			if k.Timeout == "" {
+				// the header is present without a value: an empty number, not an absent header
+				toOK, toJudged = false, true
+			}
 		}
 		switch {
 		case encAlg != "" && encAlg != "gzip":
